@@ -177,7 +177,72 @@ func runC08(rc *RunCtx) (*Violation, error) {
 	return final, nil
 }
 
+// runC08Repeated: one client, no GC reconciliation during the history: objects
+// whose parts repeat one deduplicated part id, copies of them, deletes in
+// every order; every surviving object must stay readable.
+func runC08Repeated(rc *RunCtx) (*Violation, error) {
+	g := rc.Gen()
+	spec := world.Spec{Default: noECStack(g, false), GCGrace: time.Second, GCInterval: time.Hour}
+	if g.Chance(1, 3) {
+		spec.GCInterval = 2 * time.Second
+	}
+	w, err := rc.World(spec)
+	if err != nil {
+		return nil, err
+	}
+	if err := w.Start(context.Background()); err != nil {
+		return nil, err
+	}
+	rc.Logf("stack default=%s gc=%v/%v", spec.Default, spec.GCGrace, spec.GCInterval)
+	cfg := DriverCfg{Buckets: []string{"bucket-a"}, Keys: []string{"k1", "k2", "k3"},
+		WPut: 3, WGet: 1, WDelete: 8, WCopy: 10, WAppend: 3, WMultipart: 14, WVersioning: 1, WDeleteVersion: 2,
+		RepeatPartBodies: true, BodySizes: []int{1, 40, 1500},
+		Oracles: map[string]bool{OContent: true}}
+	d := NewDriver(rc, w.Storage, cfg)
+	d.Think = func() time.Duration { return time.Duration(1+g.Int(200)) * time.Millisecond }
+	// appends of identical bytes also repeat a part id
+	same := []byte("same-append-bytes")
+	var viol *Violation
+	nOps := 25 + g.Int(20)
+	t := rc.S.Go("client", func(t *sim.Task) {
+		for i := 0; i < nOps; i++ {
+			if g.Chance(1, 3) {
+				d.Cfg.BodyPool = [][]byte{same}
+			} else {
+				d.Cfg.BodyPool = nil
+			}
+			if v, _ := d.Step(g); v != nil {
+				viol = v
+				return
+			}
+		}
+		rc.S.Sleep(45 * time.Second)
+		viol = d.CheckAll()
+	})
+	if err := rc.S.RunTasks(t); err != nil {
+		return nil, err
+	}
+	if p := TaskPanic(t); p != "" {
+		return rc.Fail("panic", "panic", "%s", p), nil
+	}
+	if viol == nil {
+		if err := partsInvariant(rc, w); err != nil {
+			viol = rc.Fail("referenced-part-deleted", "final-invariant", "%v", err)
+		}
+	}
+	rc.NonTrivial = d.Mutations >= 2
+	rc.StateSig = d.M.Hash()
+	rc.Stats.Add("ops.mutations", int64(d.Mutations))
+	return viol, nil
+}
+
 func init() {
+	Register(&Scenario{
+		Prop: "C08", Name: "repeated-part-copies",
+		Rule: "one client builds objects whose parts repeat the same deduplicated part id (multipart uploads with identical blocks, appends of identical bytes), copies them between keys and deletes them in generated orders while the GC (which would reconcile reference counts) mostly does not run; every surviving object must stay fully readable and every referenced part present; non-trivial = at least 2 mutations",
+		Real: realStack,
+		Run:  runC08Repeated,
+	})
 	Register(&Scenario{
 		Prop: "C08", Name: "shared-parts-gc", Policy: concPolicy,
 		Rule: "2-3 client tasks run generated histories (put/overwrite/delete/copy/UploadPartCopy/append/multipart/transition) in private buckets but draw bodies from a small shared pool, so parts are deduplicated and shared across keys, clients and (with named stores) transitions; the real GC loop runs with a grace window (1 ms..1 s) shorter than single operations and the scheduler idles inside uploads so part ids age past the cutoff before their rows commit; invariant after every scheduler step without an open write transaction: every part id in a committed parts row is listed by the store named on that row; each client re-reads its keys after every op and everything again after further GC sweeps; non-trivial = at least 2 acknowledged mutations; distinct = distinct interleaving",
